@@ -73,6 +73,7 @@ type Exec struct {
 	Trace   []string // only when Opts.Trace
 
 	aborted  bool
+	setup    bool // deterministic set-up phase: frozen, forward order, timers do not fire
 	frozen   bool // no more alternatives are offered to the explorer (default schedule from here on)
 	abortG   *G
 	finished chan struct{}
@@ -301,18 +302,29 @@ func (e *Exec) schedule() {
 	}
 	ng := len(e.gs)
 	at := func(i int) *G {
-		if e.Opts.Reverse {
+		if e.Opts.Reverse && !e.setup {
 			return e.gs[ng-1-i]
 		}
 		return e.gs[i]
 	}
+	var firstDaemon *G
 	for i := 0; i < ng; i++ {
 		if o := at(i); o != g && o.enabled() {
+			if e.setup && o.Daemon {
+				// timers stay armed during set-up unless nothing else can run
+				if firstDaemon == nil {
+					firstDaemon = o
+				}
+				continue
+			}
 			if first == nil {
 				first = o
 			}
 			n++
 		}
+	}
+	if n == 0 && firstDaemon != nil {
+		first, n = firstDaemon, 1
 	}
 	if n == 0 {
 		e.abort(g)
@@ -518,6 +530,19 @@ func Freeze() {
 	if e := cur; e != nil {
 		e.frozen = true
 	}
+}
+
+// Setup runs f as a deterministic set-up phase: no branching, goroutines run in creation
+// order whatever the reference schedule, armed timers do not fire; branching resumes afterwards.
+func Setup(f func()) {
+	e := cur
+	if e == nil || e.frozen {
+		f()
+		return
+	}
+	e.frozen, e.setup = true, true
+	f()
+	e.frozen, e.setup = false, false
 }
 
 // Observe appends an observation to the execution's outcome.
